@@ -7,6 +7,8 @@ Deductive part (every declaration, value and table state):
   * DBusProperty.__get__ : the value stored under the key (None when never assigned)
   * DBusObject._dbus_PropertyGet : raises for an unknown property or one whose access is 'write'; otherwise returns the
     stored value, wrapped in the class of the declared signature when that is a basic type
+  * getAllProperties' inner function addp : a readable property is listed under its name with its current value (typed by
+    the declaration when basic), a write-only one is not, nothing else in the result changes
   * DBusObject._dbus_PropertySet : raises for an unknown property or one that is not 'write' / 'readwrite' (and then
     changes nothing); otherwise the value is stored through the descriptor (with its emission rule)
 The attribute access getattr(self, p.attr_name) / setattr(self, p.attr_name, v) is the descriptor protocol: modelled as the
@@ -233,19 +235,47 @@ def build_world():
              ensures=pset_post, raises={Exception: pset_raises},
              raises_post={Exception: lambda cx: [('a refused Set changes nothing', cx.unchanged(O + '._dbusProperties', O + '.g_emitted'))]},
              modifies=smods)
+    # ---- getAllProperties' inner function addp: one property of the interface being listed
+    def addp_pre(cx):
+        pv = cx.old(cx.args['p'])
+        desc = ufun('descriptor_of', IntSort, StringSort, IntSort)
+        return [('the descriptor is bound and registered under its attribute name (what the interface caches hold)',
+                 z3.And(resolved(pv), z3.Not(pv.attr_name.none), desc(cx.args['self'].term, pv.attr_name.val.term) == cx.args['p'].term))]
+
+    def addp_post(cx):
+        pv = cx.old(cx.args['p'])
+        ipv = cx.old(VRef(pv.iprop.val.term, IP))
+        me = cx.old(cx.args['self'])
+        k = key_of(pv)
+        r0 = cx.arg0['r'] if getattr(cx, 'arg0', None) and 'r' in cx.arg0 else None
+        rd = cx.args['r']
+        old_dom, old_val = (r0[0], r0[1]) if r0 is not None else (rd.dom, rd.vals[0])
+        basic = z3.Or([ipv.sig == sv(c) for c in CODES])
+        stored = z3.And(me.__getattr__('_dbusProperties?set'), z3.Select(me._dbusProperties.dom, k))
+        val = z3.Select(me._dbusProperties.vals[0], k)
+        return [('a write-only property is not revealed', z3.Implies(ipv.access == sv('write'), z3.And(rd.dom == old_dom, rd.vals[0] == old_val))),
+                ('a readable property is listed under its name with its current value, typed by the declaration when basic; nothing else changes',
+                 z3.Implies(z3.And(ipv.access != sv('write'), stored),
+                            z3.And(rd.dom == z3.Store(old_dom, pv.pname, True),
+                                   rd.vals[0] == z3.Store(old_val, pv.pname, z3.If(basic, typed(ipv.sig, val), val)))))]
+
+    contract(w, 'nested:DBusObject.getAllProperties.addp', {'p': Ref(DP), 'self': Ref(O), 'r': DictT(STR, OPAQUE)},
+             fn=objects.DBusObject.getAllProperties, nested='addp', mutates=('r',),
+             requires=addp_pre, ensures=addp_post,
+             modifies=lambda cx: [(cx.args['self'], O + '._dbusProperties'), (cx.args['self'], O + '._dbusProperties?set'), ('*', DP + '.key')])
     return w
 
 
 def build(tier='quick'):
     w = build_world()
-    targets = ['txdbus.objects.DBusProperty.__set__', 'txdbus.objects.DBusProperty.__get__',
+    targets = ['nested:DBusObject.getAllProperties.addp', 'txdbus.objects.DBusProperty.__set__', 'txdbus.objects.DBusProperty.__get__',
                'txdbus.objects.DBusObject._dbus_PropertyGet', 'txdbus.objects.DBusObject._dbus_PropertySet']
     sp = Spec('C17', w, lambda world: Models17(world), targets, replay=replay,
               bounded=[{'name': 'property-history', 'run': run_bounded}],
               trusted=['the descriptor protocol: obj.<attr> / setattr(obj, attr, v) on a class attribute that is a DBusProperty calls its __get__ / __set__ (Python data model)'],
               assumed=['_getProperty (reflection over the per-class interface caches) returns None or a bound descriptor: its interface and declaration are set, its key - once set - is interface + name, and it is the class attribute named by its attr_name (registry invariant of _cacheInterfaces); WHICH descriptor it returns for a name is decided by the bounded part',
                        'emitSignal records the emitted signal in ghost fields; its own lookup of the PropertiesChanged signal and the message construction are C10 / C03 matters',
-                       'getAllProperties / GetAll (nested closure over the reflection caches) is bounded-only',
+                       'getAllProperties / GetAll: the inner function addp (one property) is verified; the loops over the reflection caches that feed it are bounded-only',
                        'values are opaque; "typed by the declaration" is the wrapper class of the basic type code applied to the value (variantClassMap, pinned by the C19 lemmas)'],
               notes=['unassigned properties read as None: such an object cannot be exported (encoding fails); the harness assigns every property before export as user code must'],
               explanation='the property descriptor and the remote Get / Set accessors verified for every declaration, value and store state (access modes, storage under interface + name, typed variants, change-notification rule); histories against a reference store through the real dispatcher on top',
